@@ -61,11 +61,21 @@ fn canon_case(ctx: &mut Ctx, rng: &mut Rng) {
     let (pd, origin) = knot_diagram(ctx, rng);
     let h = *rng.choose(&[0i64, 1, 2, 3, -1]);
     let reduced = rng.chance(1, 2);
-    let conf = json!({"origin": origin, "h": h, "reduced": reduced});
+    // reduced theory: half of the cases mark an arbitrary edge as base point through the public builder
+    let base: Option<usize> = if reduced && rng.chance(1, 2) { Some(*rng.choose(&pd.edges())) } else { None };
+    let conf = json!({"origin": origin, "h": h, "reduced": reduced, "explicit_base_point": base});
     let wit = |extra: serde_json::Value| json!({"config": conf, "pd": pd.x, "detail": extra});
     let l = to_link(&pd);
     let res = guarded(move || {
-        let c = KhComplex::<i64>::new(&l, &h, &0, reduced);
+        let c = match base {
+            Some(e) => {
+                let mut b = yui_kh::kh::internal::v2::builder::TngComplexBuilder::<i64>::new(&l, &h, &0, Some(e));
+                b.process_all();
+                b.finalize();
+                b.into_kh_complex()
+            }
+            None => KhComplex::<i64>::new(&l, &h, &0, reduced),
+        };
         let zs = c.canon_cycles().clone();
         let info: Vec<(bool, bool, bool, Vec<i64>)> = zs.iter().map(|z| {
             let nonzero = z.iter().any(|(_, a)| *a != 0);
